@@ -15,6 +15,16 @@ use ssdeep::{Generator, GeneratorError, LongRawFuzzyHash, RawFuzzyHash};
 pub const MAX: u64 = Generator::MAX_INPUT_SIZE;
 pub const NSLOTS: usize = 3;
 
+/// Set when the validation of hook H2 failed: fast-forward operations are
+/// then executed by really feeding zeros (runs up to 64 KiB) or dropped
+/// (longer ones), so that a broken hook can never be reported as a violation
+/// of a property.
+pub static NO_FF: std::sync::atomic::AtomicBool = std::sync::atomic::AtomicBool::new(false);
+
+fn no_ff() -> bool {
+    NO_FF.load(std::sync::atomic::Ordering::Relaxed)
+}
+
 #[derive(Clone, Copy, Debug, PartialEq, Eq, PartialOrd, Ord)]
 pub enum Form {
     Slice,
@@ -631,10 +641,23 @@ fn step(cx: &mut Ctx, slots: &mut [Slot], op: &Op, twin: bool) {
         }
         Op::Skip { slot, n } => {
             let s = &mut slots[*slot as usize];
-            s.g.verif_feed_zero_bytes(*n);
-            if twin {
-                s.nodecl.verif_feed_zero_bytes(*n);
-                s.fresh.verif_feed_zero_bytes(*n);
+            if no_ff() {
+                if *n > MATERIALISE_MAX {
+                    cx.ev(true, format_args!("skip s{} {} dropped (fast-forward disabled)", slot, n));
+                    return;
+                }
+                let z = vec![0u8; *n as usize];
+                s.g.update(&z);
+                if twin {
+                    s.nodecl.update(&z);
+                    s.fresh.update(&z);
+                }
+            } else {
+                s.g.verif_feed_zero_bytes(*n);
+                if twin {
+                    s.nodecl.verif_feed_zero_bytes(*n);
+                    s.fresh.verif_feed_zero_bytes(*n);
+                }
             }
             s.model.push_zeros(*n);
             if *n >= 6 {
@@ -965,6 +988,21 @@ fn shot_step(cx: &mut Ctx, s: &Slot, slot: u8, kind: &Shot, twin: bool) {
         }
         Shot::File { reads, scribble } => {
             let script: Vec<REv> = reads.iter().map(|&r| REv::Deliver(r.max(1))).collect();
+            // The undeclared twin of hash_file is hash_stream over the same
+            // reads.  If that twin does not produce the reference hash, the
+            // stream path itself is broken (C03 / C18 business): hash_file
+            // is then not judged here, because a size declaration that
+            // *correctly* refuses a short-fed stream is what C12 demands.
+            if twin {
+                let mut rd = SimReader::new(&all, &script, *scribble, true);
+                let tw = ssdeep::hash_stream(&mut rd);
+                let twin_ok = matches!((&tw, &want), (Ok(a), Ok(b)) if a.full_eq(b));
+                if !twin_ok {
+                    cx.probe("shot.file_twin_foreign");
+                    cx.ev_std(format_args!("hash_file s{} {} not judged: undeclared stream twin disagrees with the reference", slot, abr(&all)));
+                    return;
+                }
+            }
             let spec = FileSpec { open: Ok(()), meta: Ok(all.len() as u64), script, scribble: *scribble, sticky: true };
             let fr = run_hash_file(&all, &spec);
             let txt = match &fr.result {
